@@ -38,7 +38,7 @@ fn opclass(op: &Op, present: bool) -> String {
 
 /// The continuation: fault-free (or once more faulty) operations on a queue whose order and
 /// length may be unspecified. Results are ignored: only memory safety and the ledger count.
-fn continuation<Q: QueueApi>(st: &mut State<Q>, seed: u64, second: Option<(Cb, u64)>, cn: &mut Cov) {
+fn continuation<Q: QueueApi>(st: &mut State<Q>, seed: u64, second: Option<(Cb, u64)>, old_ids: &[u32], cn: &mut Cov) {
     let mut rng = Rng::new(seed);
     let mut prng = rng.clone();
     let mut prof = gen::profile("churn", &mut prng);
@@ -111,7 +111,18 @@ fn continuation<Q: QueueApi>(st: &mut State<Q>, seed: u64, second: Option<(Cb, u
             break;
         }
     }
-    // phase 3: refill after shrinking, touch every element, then drain or clear
+    // phase 3: by-key operations on the ORIGINAL items (after the pops the map may still hold
+    // entries that the index tables no longer cover), refill after shrinking, touch every
+    // element, then drain or clear
+    for (j, &id) in old_ids.iter().take(6).enumerate() {
+        let op = match j % 4 {
+            0 => Op::ChangeBy { id, ord: 3, k: true },
+            1 => Op::Change { id, ord: -2, k: false },
+            2 => Op::Push { id, ord: 4 },
+            _ => Op::Remove { id, k: true },
+        };
+        run(st, &op, cn);
+    }
     for id in 0..5u32 {
         run(st, &Op::Push { id: 100 + id, ord: (id as i64) % 3 }, cn);
     }
@@ -200,7 +211,9 @@ pub fn run_fault<Q: QueueApi>(c: &FaultCase, cn: &mut Cov) -> Option<Viol> {
     if c.second.is_some() {
         cn.second_faults += 1;
     }
-    continuation(&mut st, c.cont_seed, c.second, cn);
+    let mut old_ids: Vec<u32> = c.recipe.pushes.iter().map(|p| p.0).collect();
+    old_ids.reverse();
+    continuation(&mut st, c.cont_seed, c.second, &old_ids, cn);
     let client_leaks = client_leaks.max(st.expected_leaks);
     let leaked_guard = matches!(&c.op, Op::Drain { leak: true, .. });
     let dropped = catch_unwind(AssertUnwindSafe(move || drop(st)));
@@ -238,7 +251,7 @@ fn gen_fault_op(rng: &mut Rng, kind: Kind, n: usize, ids: u32) -> Op {
     let end = if kind == Kind::Pq || rng.chance(1, 2) { End::Max } else { End::Min };
     let id = rng.below(ids as usize + 2) as u32;
     let ord = rng.range(-1, 4);
-    match rng.below(24) {
+    match rng.below(26) {
         0 | 1 | 2 => Op::Push { id: ids + 5 + rng.below(3) as u32, ord }, // new item
         3 | 4 => Op::Push { id, ord },
         5 => Op::PushInc { id, ord },
@@ -269,7 +282,7 @@ fn gen_fault_op(rng: &mut Rng, kind: Kind, n: usize, ids: u32) -> Op {
         }
         21 => Op::Convert,
         22 => Op::Drain { front: rng.below(n + 1), back: rng.below(2), leak: rng.chance(1, 2) },
-        _ => rng.pick(&[Op::EqCheck, Op::SortedCheck, Op::Serde { via_other: false }, Op::IntoIterCheck]).clone(),
+        _ => rng.pick(&[Op::EqCheck, Op::SortedCheck, Op::Serde { via_other: false }, Op::IntoIterCheck, Op::IntoVecCheck, Op::SortedItemsCheck { desc: true }, Op::SortedItemsCheck { desc: kind == Kind::Pq }, Op::Observe]).clone(),
     }
 }
 
